@@ -2,6 +2,7 @@ import BoxoModel.C36.Safe
 import BoxoModel.C36.Overflow
 import BoxoModel.C36.Answer
 import BoxoModel.C36.Worker
+import BoxoModel.Gen.C36
 /-!
 # C36 — Bitswap server sends only wanted, present, permitted data and bounds queues
 
@@ -228,6 +229,52 @@ theorem c36_worker_progress (n : Nat) (hn : 0 < n) (evs : List Worker.WEv)
       Worker.lt s' (Worker.run { atOutbox := n } evs) := by
   obtain ⟨hi, hw⟩ := c36_no_lost_wakeup n evs
   refine ⟨Worker.enabled _ hi (by unfold Worker.workers at hw; omega) hp, fun e s' he hs => Worker.progress _ e s' hp he hs⟩
+
+/-! ## T-gen: the integer / boolean conditions of the Go code, regenerated on every run (`extract condexpr`,
+`BoxoModel/Gen/C36.lean`), agree with the hand-written model. A semantic change of one of these conditions in
+engine.go / peer_ledger.go changes the generated definition and breaks the corresponding theorem. -/
+
+theorem c36_gen_sendAsBlock (cfg : Cfg) (wt : WT) (bs : Nat) :
+    Gen.C36.sendAsBlock (decide (wt = .block)) bs cfg.replace = sendAsBlock cfg wt bs := by
+  simp [Gen.C36.sendAsBlock, sendAsBlock]
+
+/-- the oversize-CID test and the intake truncation test of splitWantsCancelsDenials, as the model's `split` uses them -/
+theorem c36_gen_split (cfg : Cfg) (p : Peer) (et : MEntry) (r wants cancels denials : List MEntry) :
+    split cfg p (et :: r) wants cancels denials =
+      if Gen.C36.cidTooBig cfg.maxCid (cfg.byteLen et.cid) then split cfg p r wants cancels denials
+      else if cfg.isIdent et.cid then split cfg p r wants cancels denials
+      else if et.cancel then split cfg p r wants (cancels ++ [et]) denials
+      else if cfg.denied p et.cid then split cfg p r wants cancels (denials ++ [et])
+      else if Gen.C36.roomForWant wants.length cfg.limit then split cfg p r (wants ++ [et]) cancels denials
+      else split cfg p r wants cancels denials := by
+  conv => lhs; unfold split
+  simp [Gen.C36.cidTooBig, Gen.C36.roomForWant]
+
+/-- the "newcomer's priority is too low" test of handleOverflow's second loop -/
+theorem c36_gen_stopReplacing (cfg : Cfg) (p : Peer) (i : Nat) (c : Cid) (e : Entry) (ws : List (Cid × Entry))
+    (removed : List Nat) (n : MEntry) (ns : List MEntry) (o : OvSt)
+    (hskip : removed.head? ≠ some i) (hstop : Gen.C36.stopReplacing n.prio e.prio = true) :
+    ovStage2 cfg p i ((c, e) :: ws) removed (n :: ns) o = o := by
+  have : n.prio < e.prio := by simpa [Gen.C36.stopReplacing] using hstop
+  unfold ovStage2
+  simp [hskip, this]
+
+/-- the "list is full" test of peerLedger.Wants: a new CID is refused exactly when it holds -/
+theorem c36_gen_ledgerFull (l : Ledger) (limit : Nat) (p : Peer) (c : Cid) (e : Entry) (w : Map Cid Entry)
+    (hf : find l.peers p = some w) (hnew : (find w c).isNone = true) :
+    (l.wants limit p c e).2 = !Gen.C36.ledgerFull limit w.length := by
+  unfold Ledger.wants
+  simp only [hf]
+  by_cases h : limit ≠ 0 ∧ w.length = limit
+  · have : (limit ≠ 0 ∧ w.length = limit ∧ (find w c).isNone = true) := ⟨h.1, h.2, hnew⟩
+    simp [Gen.C36.ledgerFull, this, h.1, h.2]
+  · have h' : ¬ (limit ≠ 0 ∧ w.length = limit ∧ (find w c).isNone = true) := fun x => h ⟨x.1, x.2.1⟩
+    rw [if_neg h']
+    simp only [Gen.C36.ledgerFull]
+    by_cases h0 : limit = 0
+    · simp [h0]
+    · have : w.length ≠ limit := fun x => h ⟨h0, x⟩
+      simp [h0, this]
 
 /-! ## Non-vacuity: concrete histories (limit 2, three CIDs of 10 bytes, all in the store) -/
 
